@@ -23,6 +23,7 @@ THEOREMS = [
     # the two transpiler passes: head-recursive form of the per-wire DAG model, semantic soundness for every semantics obeying the reset laws, and in the PTM semantics
     "CKT.C12Pass.pfr_eq", "CKT.C12Pass.pcr_eq", "CKT.C12Pass.passRemoveFinalReset_obs", "CKT.C12Pass.passConsolidateResets_run", "CKT.C12Pass.passes_statistics",
 ]
+LEVEL_TEXT = ("only resets are removed, per-wire characterisation + T12.3 (statistics unchanged) proved for every semantics obeying the reset laws and, without assumed laws, for the Pauli-expectation semantics of dynamic circuits (any gate matrices), for the three list passes and for the two transpiler passes (per-wire DAG model); Qiskit's DAG conversion is external; control flow has no semantics in the model (oracle only)")
 RULE = ("dynamic circuits over {reset,h,x,sx,cx (both directions),measure,barrier} on 1-4 qubits / 0-4 clbits with up to 16 instructions; "
         "thorough additionally enumerates every program of length <=5 on 2 qubits / 1 clbit (exhaustive); every circuit is pushed through the three "
         "list scans, their composition and the two transpiler passes; non-trivial = contains a reset; distinct by program; fixed families: resets after "
